@@ -247,8 +247,18 @@ class Cutter(ast.NodeTransformer):
 
     def _comp(self, node, kind, elt):
         node = self.generic_visit(node)
+        if len(node.generators) == 2 and kind == "list" and not any(g.is_async or g.ifs for g in node.generators):
+            # [elt for a in it1 for b in it2(a)]: a product index list; kept lazy when an iterable is abstract
+            g1, g2 = node.generators
+            try:
+                fn = self._lam(g1.target, self._lam(g2.target, node.elt))
+                it2 = self._lam(g1.target, g2.iter)
+            except NotImplementedError:
+                return node
+            self.comps += 1
+            return ast.copy_location(ast.Call(ast.Attribute(ast.Name("__pv", ast.Load()), "comp2", ast.Load()), [ast.Constant(kind), fn, g1.iter, it2], []), node)
         if len(node.generators) != 1 or node.generators[0].is_async:
-            return node                       # nested generators: run natively (concrete iterables only)
+            return node                       # other nested generators: run natively (concrete iterables only)
         g = node.generators[0]
         if kind == "dict":
             elt = ast.Tuple([node.key, node.value], ast.Load())
